@@ -323,6 +323,20 @@ func (w *worldB) produceBlock(pick []int) *simtm.Block {
 	return b
 }
 
+// quietTail lets the chain take everything that is pending until three consecutive blocks
+// stayed empty (bounded), so that every observer can catch up with a tail without events.
+func (w *worldB) quietTail() {
+	empty := 0
+	for i := 0; i < 16 && empty < 3; i++ {
+		if b := w.produceBlock(nil); len(b.Txs) == 0 {
+			empty++
+		} else {
+			empty = 0
+		}
+		w.settle(time.Second)
+	}
+}
+
 // settle drives the scheduler until nothing is runnable and fake time has
 // advanced by at least d (keypers poll every 2 s).
 func (w *worldB) settle(d time.Duration) {
